@@ -87,7 +87,7 @@ inductive ConnKind | disconnect | reconnect | closed
 
 inductive Ev
   | inst (c : InstCfg)
-  | hyp (responsive noOutside noPreempt faultFree connOnly : Bool)   -- what the scenario's generator promises
+  | hyp (responsive noOutside noPreempt faultFree connOnly : Bool) (maxLat faultsEnd : Nat)   -- what the scenario's generator promises
   | call (op inst : Nat) (kind : OpKind) (key : String) (exp : Nat) (val : Val)
   | apply (op : Nat) (a : Applied)
   | ret (op : Nat) (r : Ret)
